@@ -466,7 +466,7 @@ impl BuildJob<'_> {
                 &mut ptx, &t, sf, &before_t, out_file, &tmp_name, &argv, rv,
             );
             if let Err(e) = ptx.commit() {
-                eprintln!("{:?}: {}", &t, e);
+                say(format_args!("{:?}: {}", &t, e));
                 return EXIT_BUILD_JOB_ERROR;
             }
             rv
@@ -606,12 +606,12 @@ impl BuildJob<'_> {
             None => false,
         };
         if modified {
-            eprintln!("{:?} modified {} directly!", argv[2].as_ref(), t);
-            eprintln!("... you should update $3 (a temp file) or stdout, not $1.");
+            say(format_args!("{:?} modified {} directly!", argv[2].as_ref(), t));
+            say(format_args!("... you should update $3 (a temp file) or stdout, not $1."));
             rv = EXIT_TARGET_DIRECTLY_MODIFIED;
         } else if st2.is_some() && st1_size > 0 {
-            eprintln!("{:?} wrote to stdout *and* created $3.", argv[2].as_ref());
-            eprintln!("... you should write status messages to stderr, not stdout.");
+            say(format_args!("{:?} wrote to stdout *and* created $3.", argv[2].as_ref()));
+            say(format_args!("... you should write status messages to stderr, not stdout."));
             rv = EXIT_MULTIPLE_OUTPUTS;
         }
         if rv == EXIT_SUCCESS {
@@ -1134,6 +1134,14 @@ where
             }
         }
     }
+}
+
+/// Writes a line to stderr like `eprintln!`, except that a stderr nobody reads any more
+/// (`redo ... 2>&1 | head -1`) is no reason to panic: the process that says this has
+/// jobs to record.
+fn say(args: std::fmt::Arguments<'_>) {
+    use std::io::Write;
+    let _ = writeln!(io::stderr(), "{}", args);
 }
 
 /// Removes a temporary output file ($3), whatever the script made of it.
